@@ -119,9 +119,13 @@ class Decimal(SimpleModel):
 
         msl = kwargs.get('max_str_len', None)
         if msl is None:
-            kwargs['max_str_len'] = cls.Attributes.total_digits + 2
-            # + 1 for decimal separator
-            # + 1 for negative sign
+            # not requested: the new class keeps the limit of this one,
+            # unless a new number of digits is requested along
+            kwargs.pop('max_str_len', None)
+            if td is not None:
+                kwargs['max_str_len'] = td + 2
+                # + 1 for decimal separator
+                # + 1 for negative sign
 
         else:
             kwargs['max_str_len'] = msl
